@@ -258,6 +258,8 @@ def run(ctx):
         # the range-difference veto is unbounded only for a node lexed against the end of the *old document* — not for every node (shared with C01.P9)
         import C01
         C01.rule_lookahead_end(ctx, F)
+        # ts_parser_reset leaves nothing behind that makes the next call look like a resumption (which ignores the old tree) (shared with C09.F1)
+        C09.rule_f1(ctx, F)
         # an edited tree's included ranges feed the range difference that vetoes reuse (shared with C10.W2)
         import C10
         C10.rule_range_edit(ctx, F)
